@@ -4,10 +4,12 @@ package main
 
 import (
 	"fmt"
+	"github.com/alicebob/miniredis/v2"
 	"net/http"
 	"net/http/httptest"
 	"net/url"
 	"strings"
+	"sync"
 	"testing"
 	"time"
 
@@ -54,6 +56,7 @@ func driveC11(t *testing.T, out *vEmitter) {
 	// interleavings of a sign-out with a concurrent refreshing request (scheduler of C12)
 	vExploreSignOutRaces(t, out, vSchedEnv(t))
 	vExploreSignOutFlaky(t, out, vSchedEnv(t))
+	vC11RealRedisSignOut(t, out)
 
 	type cfg struct {
 		name    string
@@ -261,7 +264,6 @@ func vSignOutHistory(t *testing.T, out *vEmitter, name string, redis bool, domai
 	}
 }
 
-
 // vIncompressible: n characters that lz4 cannot shrink (the session encoding compresses before encrypting, so
 // a repeated character would never make a session large).  Short lengths keep the old, readable filler.
 func vIncompressible(n int) string {
@@ -278,4 +280,70 @@ func vIncompressible(n int) string {
 		raw[i] = al[x&63]
 	}
 	return string(raw)
+}
+
+// vC11RealRedisSignOut: the real Redis client and its lock (on miniredis).  A request refreshes a stale session at a
+// slow provider and holds the refresh lock; the sign-out arrives meanwhile and has to WAIT for that lock.  When both
+// are finished the stored session is gone and the pre-sign-out cookie authenticates nobody.
+func vC11RealRedisSignOut(t *testing.T, out *vEmitter) {
+	mr, err := miniredis.Run()
+	if err != nil {
+		out.Stat("miniredis_unavailable", 1)
+		return
+	}
+	defer mr.Close()
+	e := vNewEnv(t, vEnvCfg{oidc: true, mod: func(o *options.Options) {
+		o.Session.Type = options.RedisSessionStoreType
+		o.Session.Redis.ConnectionURL = "redis://" + mr.Addr()
+		o.Cookie.Refresh = time.Hour
+		o.Providers[0].OIDCConfig.InsecureSkipNonce = true
+	}})
+	for round := 0; round < vPick(4, 20); round++ {
+		rot := &vRotIdP{}
+		h := rot.handler("user@example.com")
+		entered := make(chan struct{}, 4)
+		e.idp.onToken = func(f url.Values) (int, string, string, error) {
+			entered <- struct{}{}
+			time.Sleep(time.Duration(150+50*round) * time.Millisecond)
+			return h(f)
+		}
+		b := e.newBrowser("https://app.example.com")
+		b.seedSession("user@example.com", 2*time.Hour, 30)
+		cookie := b.cookieHeader("/")
+		var wg sync.WaitGroup
+		var pageStatus, outStatus int
+		wg.Add(2)
+		go func() {
+			defer wg.Done()
+			req, _ := vRawRequest(vBuildRaw("GET", "/page", "app.example.com", [][2]string{{"Cookie", cookie}}, ""))
+			pageStatus = e.serveNoUpstreamReset(req).Status
+		}()
+		go func() {
+			defer wg.Done()
+			select {
+			case <-entered: // the other request is inside its provider call, holding the lock
+			case <-time.After(3 * time.Second):
+			}
+			req, _ := vRawRequest(vBuildRaw("GET", "/oauth2/sign_out", "app.example.com", [][2]string{{"Cookie", cookie}}, ""))
+			outStatus = e.serveNoUpstreamReset(req).Status
+		}()
+		wg.Wait()
+		e.upstream.Take()
+		left := 0
+		for _, k := range mr.Keys() {
+			if !strings.HasSuffix(k, ".lock") {
+				left++
+			}
+		}
+		req, _ := vRawRequest(vBuildRaw("GET", "/oauth2/auth", "app.example.com", [][2]string{{"Cookie", cookie}}, ""))
+		replay := e.serve(req)
+		out.Obs("real-redis-signout", true, vL(vI(int64(pageStatus)), vI(int64(outStatus)), vI(int64(left)), vI(int64(replay.Status))))
+		out.Stat("real_redis_signout_rounds", 1)
+		if outStatus == 302 && (left > 0 || replay.Status == 202) {
+			out.Violation("signout/replay-authenticated", "after a successful sign-out a cookie the browser held before still loads a session",
+				map[string]interface{}{"store": "miniredis+redislock", "stored_sessions_left": left, "replay_status": replay.Status, "page_status": pageStatus,
+					"schedule": "sign-out arrives while another request holds the refresh lock at a slow provider"})
+		}
+		mr.FlushAll()
+	}
 }
